@@ -196,13 +196,17 @@ def link_items(sc):
 
 # ------------------------------------------------------------------ type-directed TL1 generator
 STR_LENS = [0, 0, 1, 2, 3, 4, 5, 7, 8, 11, 16, 31]
+# string lengths that put the string's own length, or the body size of the objects around it (1..12 bytes of overhead), on either side
+# of 65790 = 254 + 65536, where the TL2 size switches from the 3-byte to the 9-byte form
+HUGE_LENS = list(range(65774, 65794)) + [65790] * 8 + [65786, 65787, 65788, 65789] * 2
 
 
 class Gen1:
     """Produces valid TL1 encodings straight from the descriptor (an independent third implementation,
     used only to shape inputs: both sides of the tie decode what it produces)."""
 
-    def __init__(self, sc, rng, maxdepth=4, big=False, noncanon=False, zero_bias=0):
+    def __init__(self, sc, rng, maxdepth=4, big=False, noncanon=False, zero_bias=0, huge=0):
+        self.huge = huge              # 1-in-`huge` strings get a length around 65790 = 254 + 65536 (boundary of the TL2 medium size form)
         self.I = sc.desc["instances"]
         self.rng = rng
         self.maxdepth = maxdepth
@@ -216,7 +220,9 @@ class Gen1:
 
     def string(self):
         r = self.rng
-        if self.big and r.chance(1, 40):
+        if self.huge and r.chance(1, self.huge):
+            n = r.choice(HUGE_LENS)
+        elif self.big and r.chance(1, 40):
             n = r.choice([253, 254, 255, 256, 300])
         else:
             n = r.choice(STR_LENS)
